@@ -1,1 +1,774 @@
-pub fn hello() {}
+//! `ref` — an independent re-implementation of the constructions blsful documents, written
+//! from draft-irtf-cfrg-bls-signature and the papers cited in the sources, on `bls12_381_plus`
+//! primitives (field / curve arithmetic, hash-to-curve, pairing) with a hand-written
+//! HMAC/HKDF, LEB128 framing and hand-typed domain-separation strings.
+//! It is an ORACLE and a PEER in the simulation, never code under test.
+
+use bls12_381_plus::elliptic_curve::hash2curve::ExpandMsgXmd;
+use bls12_381_plus::ff::Field;
+use bls12_381_plus::group::Curve;
+use bls12_381_plus::{pairing, G1Affine, G1Projective, G2Affine, G2Projective, Gt, Scalar};
+use sha2::{Digest, Sha256};
+use sha3::digest::{ExtendableOutput, Update, XofReader};
+use sha3::Shake128;
+
+pub mod layout;
+
+// ------------------------------------------------------------------------------------------
+// Draft strings, typed by hand from draft-irtf-cfrg-bls-signature (section 4.2) — the group in
+// the name is the *signature* group: G1 = minimal-signature-size, G2 = minimal-pubkey-size.
+// ------------------------------------------------------------------------------------------
+pub const DRAFT_SIG_G1_NUL: &[u8] = b"BLS_SIG_BLS12381G1_XMD:SHA-256_SSWU_RO_NUL_";
+pub const DRAFT_SIG_G1_AUG: &[u8] = b"BLS_SIG_BLS12381G1_XMD:SHA-256_SSWU_RO_AUG_";
+pub const DRAFT_SIG_G1_POP: &[u8] = b"BLS_SIG_BLS12381G1_XMD:SHA-256_SSWU_RO_POP_";
+pub const DRAFT_POP_G1: &[u8] = b"BLS_POP_BLS12381G1_XMD:SHA-256_SSWU_RO_POP_";
+pub const DRAFT_SIG_G2_NUL: &[u8] = b"BLS_SIG_BLS12381G2_XMD:SHA-256_SSWU_RO_NUL_";
+pub const DRAFT_SIG_G2_AUG: &[u8] = b"BLS_SIG_BLS12381G2_XMD:SHA-256_SSWU_RO_AUG_";
+pub const DRAFT_SIG_G2_POP: &[u8] = b"BLS_SIG_BLS12381G2_XMD:SHA-256_SSWU_RO_POP_";
+pub const DRAFT_POP_G2: &[u8] = b"BLS_POP_BLS12381G2_XMD:SHA-256_SSWU_RO_POP_";
+pub const KEYGEN_SALT: &[u8] = b"BLS-SIG-KEYGEN-SALT-";
+
+// own-protocol strings (from the pinned release's sources; C18 only)
+pub const SIGNCRYPT_SALT: &[u8] = b"SIGNCRYPT_BLS12381_XOF:HKDF-SHA2-256_";
+pub const TIMELOCK_SALT: &[u8] = b"TIMELOCK_BLS12381_XOF:HKDF-SHA2-256_";
+pub const POK_SALT: &[u8] = b"BLS_POK__BLS12381_XOF:HKDF-SHA2-256_";
+pub const ELGAMAL_SALT: &[u8] = b"ELGAMAL_BLS12381_XOF:HKDF-SHA2-256_";
+pub const ELGAMAL_DST_PKG2: &[u8] = b"BLS_ELGAMAL_BLS12381G2_XMD:SHA-256_SSWU_RO_NUL_";
+pub const ELGAMAL_DST_PKG1: &[u8] = b"BLS_ELGAMAL_BLS12381G1_XMD:SHA-256_SSWU_RO_NUL_";
+
+/// Which group holds signatures. Mirrors `simtypes::Grp` without depending on it.
+#[derive(Clone, Copy, Debug, PartialEq, Eq, Hash)]
+pub enum SigGrp {
+    G1,
+    G2,
+}
+
+#[derive(Clone, Copy, Debug, PartialEq, Eq, Hash)]
+pub enum Scheme {
+    Basic = 0,
+    Aug = 1,
+    Pop = 2,
+}
+impl Scheme {
+    pub const ALL: [Scheme; 3] = [Scheme::Basic, Scheme::Aug, Scheme::Pop];
+    pub fn from_u8(b: u8) -> Scheme {
+        match b {
+            0 => Scheme::Basic,
+            1 => Scheme::Aug,
+            _ => Scheme::Pop,
+        }
+    }
+}
+
+/// The tags a tree uses: [basic, aug, pop_sig, pop_pop]. Either the draft's or the tree's own.
+#[derive(Clone, Debug, PartialEq, Eq)]
+pub struct Tags {
+    pub basic: Vec<u8>,
+    pub aug: Vec<u8>,
+    pub pop_sig: Vec<u8>,
+    pub pop_pop: Vec<u8>,
+}
+impl Tags {
+    pub fn draft(g: SigGrp) -> Tags {
+        match g {
+            SigGrp::G1 => Tags {
+                basic: DRAFT_SIG_G1_NUL.to_vec(),
+                aug: DRAFT_SIG_G1_AUG.to_vec(),
+                pop_sig: DRAFT_SIG_G1_POP.to_vec(),
+                pop_pop: DRAFT_POP_G1.to_vec(),
+            },
+            SigGrp::G2 => Tags {
+                basic: DRAFT_SIG_G2_NUL.to_vec(),
+                aug: DRAFT_SIG_G2_AUG.to_vec(),
+                pop_sig: DRAFT_SIG_G2_POP.to_vec(),
+                pop_pop: DRAFT_POP_G2.to_vec(),
+            },
+        }
+    }
+    pub fn sig(&self, s: Scheme) -> &[u8] {
+        match s {
+            Scheme::Basic => &self.basic,
+            Scheme::Aug => &self.aug,
+            Scheme::Pop => &self.pop_sig,
+        }
+    }
+}
+
+// ------------------------------------------------------------------------------------------
+// primitives: HMAC-SHA-256, HKDF (RFC 5869), LEB128
+// ------------------------------------------------------------------------------------------
+pub fn hmac_sha256(key: &[u8], data: &[&[u8]]) -> [u8; 32] {
+    let mut k = [0u8; 64];
+    if key.len() > 64 {
+        k[..32].copy_from_slice(&Sha256::digest(key));
+    } else {
+        k[..key.len()].copy_from_slice(key);
+    }
+    let mut ipad = [0x36u8; 64];
+    let mut opad = [0x5cu8; 64];
+    for i in 0..64 {
+        ipad[i] ^= k[i];
+        opad[i] ^= k[i];
+    }
+    let mut h = Sha256::new();
+    Digest::update(&mut h, ipad);
+    for d in data {
+        Digest::update(&mut h, d);
+    }
+    let inner = h.finalize();
+    let mut h = Sha256::new();
+    Digest::update(&mut h, opad);
+    Digest::update(&mut h, inner);
+    h.finalize().into()
+}
+pub fn hkdf_extract(salt: &[u8], ikm: &[&[u8]]) -> [u8; 32] {
+    hmac_sha256(salt, ikm)
+}
+pub fn hkdf_expand(prk: &[u8; 32], info: &[u8], len: usize) -> Vec<u8> {
+    let mut out = Vec::with_capacity(len);
+    let mut t: Vec<u8> = vec![];
+    let mut ctr = 1u8;
+    while out.len() < len {
+        let block = hmac_sha256(prk, &[&t, info, &[ctr]]);
+        t = block.to_vec();
+        out.extend_from_slice(&block);
+        ctr = ctr.wrapping_add(1);
+    }
+    out.truncate(len);
+    out
+}
+/// OS2IP(48 big-endian bytes) mod r
+pub fn os2ip_mod_r(okm: &[u8]) -> Scalar {
+    assert!(okm.len() <= 64);
+    let mut wide = [0u8; 64];
+    for (i, b) in okm.iter().rev().enumerate() {
+        wide[i] = *b; // little-endian
+    }
+    Scalar::from_bytes_wide(&wide)
+}
+/// The construction blsful calls `hash_to_scalar(m, dst)`:
+/// HKDF-Extract(salt = dst, IKM = m || 0x00), Expand(info = I2OSP(48, 2), 48), OS2IP mod r.
+/// With salt "BLS-SIG-KEYGEN-SALT-" this is the KeyGen of the property statement.
+pub fn hkdf_scalar(salt: &[u8], ikm: &[u8]) -> Scalar {
+    let prk = hkdf_extract(salt, &[ikm, &[0u8]]);
+    let okm = hkdf_expand(&prk, &[0u8, 48u8], 48);
+    os2ip_mod_r(&okm)
+}
+pub fn keygen(ikm: &[u8]) -> Scalar {
+    hkdf_scalar(KEYGEN_SALT, ikm)
+}
+
+pub fn leb128(mut v: u128) -> Vec<u8> {
+    let mut out = vec![];
+    loop {
+        let b = (v & 0x7f) as u8;
+        v >>= 7;
+        if v == 0 {
+            out.push(b);
+            return out;
+        }
+        out.push(b | 0x80);
+    }
+}
+/// returns (value, bytes used)
+pub fn leb128_read(b: &[u8]) -> Option<(u128, usize)> {
+    let mut x = 0u128;
+    let mut s = 0u32;
+    for (i, v) in b.iter().enumerate().take(19) {
+        if *v < 0x80 {
+            if s >= 128 {
+                return None;
+            }
+            return Some((x | ((*v as u128) << s), i + 1));
+        }
+        if s < 128 {
+            x |= ((*v & 0x7f) as u128) << s;
+        }
+        s += 7;
+    }
+    None
+}
+
+// ------------------------------------------------------------------------------------------
+// points
+// ------------------------------------------------------------------------------------------
+#[derive(Clone, Copy, Debug)]
+pub enum Pt {
+    G1(G1Projective),
+    G2(G2Projective),
+}
+impl PartialEq for Pt {
+    fn eq(&self, o: &Self) -> bool {
+        match (self, o) {
+            (Pt::G1(a), Pt::G1(b)) => a == b,
+            (Pt::G2(a), Pt::G2(b)) => a == b,
+            _ => false,
+        }
+    }
+}
+impl Pt {
+    pub fn gen1() -> Pt {
+        Pt::G1(G1Projective::GENERATOR)
+    }
+    pub fn gen2() -> Pt {
+        Pt::G2(G2Projective::GENERATOR)
+    }
+    pub fn id1() -> Pt {
+        Pt::G1(G1Projective::IDENTITY)
+    }
+    pub fn id2() -> Pt {
+        Pt::G2(G2Projective::IDENTITY)
+    }
+    pub fn is_g1(&self) -> bool {
+        matches!(self, Pt::G1(_))
+    }
+    /// checked decoding (on curve and in the prime-order subgroup); by length 48 / 96
+    pub fn from_bytes(b: &[u8]) -> Option<Pt> {
+        match b.len() {
+            48 => {
+                let a: [u8; 48] = b.try_into().ok()?;
+                Option::<G1Affine>::from(G1Affine::from_compressed(&a)).map(|p| Pt::G1(p.into()))
+            }
+            96 => {
+                let a: [u8; 96] = b.try_into().ok()?;
+                Option::<G2Affine>::from(G2Affine::from_compressed(&a)).map(|p| Pt::G2(p.into()))
+            }
+            _ => None,
+        }
+    }
+    pub fn to_bytes(&self) -> Vec<u8> {
+        match self {
+            Pt::G1(p) => p.to_affine().to_compressed().to_vec(),
+            Pt::G2(p) => p.to_affine().to_compressed().to_vec(),
+        }
+    }
+    pub fn is_identity(&self) -> bool {
+        match self {
+            Pt::G1(p) => bool::from(p.is_identity()),
+            Pt::G2(p) => bool::from(p.is_identity()),
+        }
+    }
+    pub fn add(&self, o: &Pt) -> Pt {
+        match (self, o) {
+            (Pt::G1(a), Pt::G1(b)) => Pt::G1(a + b),
+            (Pt::G2(a), Pt::G2(b)) => Pt::G2(a + b),
+            _ => panic!("ref: mixed-group addition"),
+        }
+    }
+    pub fn neg(&self) -> Pt {
+        match self {
+            Pt::G1(a) => Pt::G1(-a),
+            Pt::G2(a) => Pt::G2(-a),
+        }
+    }
+    pub fn sub(&self, o: &Pt) -> Pt {
+        self.add(&o.neg())
+    }
+    pub fn mul(&self, s: &Scalar) -> Pt {
+        match self {
+            Pt::G1(a) => Pt::G1(a * s),
+            Pt::G2(a) => Pt::G2(a * s),
+        }
+    }
+    pub fn gen_like(&self) -> Pt {
+        match self {
+            Pt::G1(_) => Pt::gen1(),
+            Pt::G2(_) => Pt::gen2(),
+        }
+    }
+    pub fn hash(in_g1: bool, msg: &[u8], dst: &[u8]) -> Pt {
+        if in_g1 {
+            Pt::G1(G1Projective::hash::<ExpandMsgXmd<Sha256>>(msg, dst))
+        } else {
+            Pt::G2(G2Projective::hash::<ExpandMsgXmd<Sha256>>(msg, dst))
+        }
+    }
+}
+
+/// What an encoding of a point *is*, judged without the library: used by C16.
+#[derive(Clone, Copy, Debug, PartialEq, Eq)]
+pub enum PointClass {
+    Valid,
+    Identity,
+    OnCurveNotInSubgroup,
+    Malformed,
+}
+pub fn classify_point(b: &[u8]) -> PointClass {
+    match b.len() {
+        48 => {
+            let a: [u8; 48] = b.try_into().unwrap();
+            match Option::<G1Affine>::from(G1Affine::from_compressed_unchecked(&a)) {
+                None => PointClass::Malformed,
+                Some(p) => {
+                    if bool::from(p.is_identity()) {
+                        PointClass::Identity
+                    } else if bool::from(p.is_torsion_free()) && bool::from(p.is_on_curve()) {
+                        PointClass::Valid
+                    } else if bool::from(p.is_on_curve()) {
+                        PointClass::OnCurveNotInSubgroup
+                    } else {
+                        PointClass::Malformed
+                    }
+                }
+            }
+        }
+        96 => {
+            let a: [u8; 96] = b.try_into().unwrap();
+            match Option::<G2Affine>::from(G2Affine::from_compressed_unchecked(&a)) {
+                None => PointClass::Malformed,
+                Some(p) => {
+                    if bool::from(p.is_identity()) {
+                        PointClass::Identity
+                    } else if bool::from(p.is_torsion_free()) && bool::from(p.is_on_curve()) {
+                        PointClass::Valid
+                    } else if bool::from(p.is_on_curve()) {
+                        PointClass::OnCurveNotInSubgroup
+                    } else {
+                        PointClass::Malformed
+                    }
+                }
+            }
+        }
+        _ => PointClass::Malformed,
+    }
+}
+
+/// Manufacture a compressed encoding (48 or 96 bytes) of an on-curve point OUTSIDE the
+/// prime-order subgroup, deterministically from `salt`.
+pub fn off_subgroup_point(len: usize, salt: u64) -> Vec<u8> {
+    let mut ctr = salt.wrapping_mul(0x9E3779B97F4A7C15);
+    loop {
+        ctr = ctr.wrapping_add(1);
+        let mut b = vec![0u8; len];
+        let h = Sha256::digest(ctr.to_le_bytes());
+        let h2 = Sha256::digest(h);
+        for (i, x) in b.iter_mut().enumerate() {
+            *x = if i < 32 { h[i] } else { h2[i % 32] ^ (i as u8) };
+        }
+        b[0] = (b[0] & 0x1f) | 0x80; // compressed, not infinity, sign 0, top bits small => x < p
+        b[0] &= 0x8f;
+        if len == 96 {
+            b[48] &= 0x0f;
+        }
+        if classify_point(&b) == PointClass::OnCurveNotInSubgroup {
+            return b;
+        }
+    }
+}
+/// An x-coordinate with no curve point (compressed form), deterministically from `salt`.
+pub fn off_curve_point(len: usize, salt: u64) -> Vec<u8> {
+    let mut ctr = salt.wrapping_mul(0xD6E8FEB86659FD93);
+    loop {
+        ctr = ctr.wrapping_add(1);
+        let mut b = vec![0u8; len];
+        let h = Sha256::digest(ctr.to_le_bytes());
+        let h2 = Sha256::digest(h);
+        for (i, x) in b.iter_mut().enumerate() {
+            *x = if i < 32 { h[i] } else { h2[i % 32] ^ (i as u8) };
+        }
+        b[0] = (b[0] & 0x0f) | 0x80;
+        if len == 96 {
+            b[48] &= 0x0f;
+        }
+        let ok = match len {
+            48 => Option::<G1Affine>::from(G1Affine::from_compressed_unchecked(&b.clone().try_into().unwrap())).is_none(),
+            _ => Option::<G2Affine>::from(G2Affine::from_compressed_unchecked(&b.clone().try_into().unwrap())).is_none(),
+        };
+        if ok {
+            return b;
+        }
+    }
+}
+
+/// Π e(P_i, Q_i) == 1 for pairs given in any (G1,G2) order.
+pub fn pairing_product_is_one(pairs: &[(Pt, Pt)]) -> bool {
+    let mut acc = Gt::IDENTITY;
+    for (a, b) in pairs {
+        let (p, q) = match (a, b) {
+            (Pt::G1(p), Pt::G2(q)) => (p, q),
+            (Pt::G2(q), Pt::G1(p)) => (p, q),
+            _ => panic!("ref: pairing needs one point from each group"),
+        };
+        acc += pairing(&p.to_affine(), &q.to_affine());
+    }
+    acc == Gt::IDENTITY
+}
+pub fn pair(a: &Pt, b: &Pt) -> Gt {
+    match (a, b) {
+        (Pt::G1(p), Pt::G2(q)) => pairing(&p.to_affine(), &q.to_affine()),
+        (Pt::G2(q), Pt::G1(p)) => pairing(&p.to_affine(), &q.to_affine()),
+        _ => panic!("ref: pairing needs one point from each group"),
+    }
+}
+
+pub fn scalar_from_be(b: &[u8]) -> Option<Scalar> {
+    let a: [u8; 32] = b.try_into().ok()?;
+    Option::from(Scalar::from_be_bytes(&a))
+}
+pub fn scalar_to_be(s: &Scalar) -> Vec<u8> {
+    s.to_be_bytes().to_vec()
+}
+pub fn scalar_from_u64(v: u64) -> Scalar {
+    Scalar::from(v)
+}
+/// r - k
+pub fn scalar_neg_u64(k: u64) -> Scalar {
+    -Scalar::from(k)
+}
+
+// ------------------------------------------------------------------------------------------
+// The BLS signature schemes of the draft (sections 2 and 3)
+// ------------------------------------------------------------------------------------------
+pub struct Bls {
+    pub g: SigGrp,
+    pub tags: Tags,
+}
+impl Bls {
+    pub fn draft(g: SigGrp) -> Bls {
+        Bls { g, tags: Tags::draft(g) }
+    }
+    pub fn with_tags(g: SigGrp, tags: Tags) -> Bls {
+        Bls { g, tags }
+    }
+    fn sig_in_g1(&self) -> bool {
+        self.g == SigGrp::G1
+    }
+    pub fn pk_gen(&self) -> Pt {
+        if self.sig_in_g1() {
+            Pt::gen2()
+        } else {
+            Pt::gen1()
+        }
+    }
+    pub fn sig_len(&self) -> usize {
+        if self.sig_in_g1() {
+            48
+        } else {
+            96
+        }
+    }
+    pub fn pk_len(&self) -> usize {
+        144 - self.sig_len()
+    }
+    pub fn sk_to_pk(&self, sk: &Scalar) -> Pt {
+        self.pk_gen().mul(sk)
+    }
+    pub fn hash_msg(&self, msg: &[u8], dst: &[u8]) -> Pt {
+        Pt::hash(self.sig_in_g1(), msg, dst)
+    }
+    pub fn core_sign(&self, sk: &Scalar, msg: &[u8], dst: &[u8]) -> Pt {
+        self.hash_msg(msg, dst).mul(sk)
+    }
+    /// CoreVerify of the draft: pk must be a valid non-identity subgroup point (KeyValidate),
+    /// the signature a subgroup point; e(pk, H(m)) == e(P, sig).
+    pub fn core_verify(&self, pk: &Pt, sig: &Pt, msg: &[u8], dst: &[u8]) -> bool {
+        if pk.is_identity() {
+            return false;
+        }
+        if pk.is_g1() == self.sig_in_g1() || sig.is_g1() != self.sig_in_g1() {
+            return false;
+        }
+        let h = self.hash_msg(msg, dst);
+        pairing_product_is_one(&[(h, *pk), (*sig, self.pk_gen().neg())])
+    }
+    pub fn aug_msg(&self, pk: &Pt, msg: &[u8]) -> Vec<u8> {
+        let mut m = pk.to_bytes();
+        m.extend_from_slice(msg);
+        m
+    }
+    pub fn sign(&self, s: Scheme, sk: &Scalar, msg: &[u8]) -> Pt {
+        match s {
+            Scheme::Basic => self.core_sign(sk, msg, &self.tags.basic),
+            Scheme::Aug => {
+                let m = self.aug_msg(&self.sk_to_pk(sk), msg);
+                self.core_sign(sk, &m, &self.tags.aug)
+            }
+            Scheme::Pop => self.core_sign(sk, msg, &self.tags.pop_sig),
+        }
+    }
+    pub fn verify(&self, s: Scheme, pk: &Pt, sig: &Pt, msg: &[u8]) -> bool {
+        match s {
+            Scheme::Basic => self.core_verify(pk, sig, msg, &self.tags.basic),
+            Scheme::Aug => {
+                let m = self.aug_msg(pk, msg);
+                self.core_verify(pk, sig, &m, &self.tags.aug)
+            }
+            Scheme::Pop => self.core_verify(pk, sig, msg, &self.tags.pop_sig),
+        }
+    }
+    pub fn pop_prove(&self, sk: &Scalar) -> Pt {
+        let pk = self.sk_to_pk(sk);
+        self.core_sign(sk, &pk.to_bytes(), &self.tags.pop_pop)
+    }
+    pub fn pop_verify(&self, pk: &Pt, proof: &Pt) -> bool {
+        self.core_verify(pk, proof, &pk.to_bytes(), &self.tags.pop_pop)
+    }
+    pub fn aggregate(&self, sigs: &[Pt]) -> Pt {
+        let mut acc = if self.sig_in_g1() { Pt::id1() } else { Pt::id2() };
+        for s in sigs {
+            acc = acc.add(s);
+        }
+        acc
+    }
+    /// CoreAggregateVerify (no distinctness rule — that is the scheme's job)
+    pub fn core_aggregate_verify(&self, pairs: &[(Pt, Vec<u8>)], sig: &Pt, dst: &[u8]) -> bool {
+        if pairs.is_empty() || sig.is_g1() != self.sig_in_g1() {
+            return false;
+        }
+        let mut v = Vec::with_capacity(pairs.len() + 1);
+        for (pk, m) in pairs {
+            if pk.is_identity() || pk.is_g1() == self.sig_in_g1() {
+                return false;
+            }
+            v.push((self.hash_msg(m, dst), *pk));
+        }
+        v.push((*sig, self.pk_gen().neg()));
+        pairing_product_is_one(&v)
+    }
+    /// AggregateVerify of the three schemes incl. the Basic distinct-message rule
+    pub fn aggregate_verify(&self, s: Scheme, pairs: &[(Pt, Vec<u8>)], sig: &Pt) -> bool {
+        match s {
+            Scheme::Basic => {
+                for i in 0..pairs.len() {
+                    for j in 0..i {
+                        if pairs[i].1 == pairs[j].1 {
+                            return false;
+                        }
+                    }
+                }
+                self.core_aggregate_verify(pairs, sig, &self.tags.basic)
+            }
+            Scheme::Aug => {
+                let p: Vec<(Pt, Vec<u8>)> = pairs.iter().map(|(pk, m)| (*pk, self.aug_msg(pk, m))).collect();
+                self.core_aggregate_verify(&p, sig, &self.tags.aug)
+            }
+            Scheme::Pop => self.core_aggregate_verify(pairs, sig, &self.tags.pop_sig),
+        }
+    }
+}
+
+// ------------------------------------------------------------------------------------------
+// blsful's own protocols, re-implemented from the papers / documented constructions (C18)
+// ------------------------------------------------------------------------------------------
+pub fn shake128(input: &[u8], out_len: usize) -> Vec<u8> {
+    let mut h = Shake128::default();
+    h.update(input);
+    let mut r = h.finalize_xof();
+    let mut out = vec![0u8; out_len];
+    r.read(&mut out);
+    out
+}
+pub fn xor(a: &[u8], b: &[u8]) -> Vec<u8> {
+    a.iter().zip(b.iter()).map(|(x, y)| x ^ y).collect()
+}
+/// length-prefixed (LEB128) payload, zero padded to at least 32 bytes
+pub fn frame(msg: &[u8]) -> Vec<u8> {
+    let mut f = leb128(msg.len() as u128);
+    f.extend_from_slice(msg);
+    while f.len() < 32 {
+        f.push(0);
+    }
+    f
+}
+pub fn unframe(f: &[u8]) -> Option<Vec<u8>> {
+    let (len, used) = leb128_read(f)?;
+    let len = usize::try_from(len).ok()?;
+    if len <= f.len() - used {
+        Some(f[used..used + len].to_vec())
+    } else {
+        None
+    }
+}
+
+pub struct SignCrypt {
+    pub u: Pt,
+    pub v: Vec<u8>,
+    pub w: Pt,
+}
+/// Signcryption seal (Baek–Zheng style as documented in the sources):
+/// U = rP, V = SHAKE128(r·pk) ⊕ frame(M), W = r·H(U ‖ V).
+pub fn signcrypt_seal(b: &Bls, pk: &Pt, msg: &[u8], dst: &[u8], r: &Scalar) -> SignCrypt {
+    let u = b.pk_gen().mul(r);
+    let f = frame(msg);
+    let ks = shake128(&pk.mul(r).to_bytes(), f.len());
+    let v = xor(&f, &ks);
+    let mut t = u.to_bytes();
+    t.extend_from_slice(&v);
+    let w = b.hash_msg(&t, dst).mul(r);
+    SignCrypt { u, v, w }
+}
+pub fn signcrypt_valid(b: &Bls, c: &SignCrypt, dst: &[u8]) -> bool {
+    if c.u.is_identity() || c.w.is_identity() {
+        return false;
+    }
+    let mut t = c.u.to_bytes();
+    t.extend_from_slice(&c.v);
+    let h = b.hash_msg(&t, dst);
+    pairing_product_is_one(&[(c.w, b.pk_gen().neg()), (h, c.u)])
+}
+pub fn signcrypt_open(b: &Bls, c: &SignCrypt, sk: &Scalar, dst: &[u8]) -> Option<Vec<u8>> {
+    if !signcrypt_valid(b, c, dst) {
+        return None;
+    }
+    let ks = shake128(&c.u.mul(sk).to_bytes(), c.v.len());
+    unframe(&xor(&c.v, &ks))
+}
+
+pub struct TimeLock {
+    pub u: Pt,
+    pub v: [u8; 32],
+    pub w: Vec<u8>,
+}
+fn gt_bytes(k: &Gt) -> Vec<u8> {
+    k.to_bytes().to_vec()
+}
+/// Time-lock (IBE with Fujisaki–Okamoto): r = H(α ‖ SHA256(M)), U = rP,
+/// V = SHA256(e(H(id), r·pk)) ⊕ α, W = SHAKE128(α) ⊕ frame(M); α given as a scalar.
+pub fn timelock_seal(b: &Bls, pk: &Pt, msg: &[u8], id_point: &Pt, alpha: &Scalar) -> TimeLock {
+    let alpha_le = alpha.to_le_bytes();
+    let mut r_in = alpha_le.to_vec();
+    r_in.extend_from_slice(&Sha256::digest(msg));
+    let r = hkdf_scalar(TIMELOCK_SALT, &r_in);
+    let k = pair(id_point, &pk.mul(&r));
+    let u = b.pk_gen().mul(&r);
+    let hk = Sha256::digest(gt_bytes(&k));
+    let v: [u8; 32] = xor(&alpha_le, &hk).try_into().unwrap();
+    let f = frame(msg);
+    let w = xor(&f, &shake128(&alpha_le, f.len()));
+    TimeLock { u, v, w }
+}
+pub fn timelock_open(b: &Bls, c: &TimeLock, sig: &Pt) -> Option<Vec<u8>> {
+    if sig.is_identity() || c.u.is_identity() {
+        return None;
+    }
+    let k = pair(sig, &c.u);
+    let hk = Sha256::digest(gt_bytes(&k));
+    let alpha = xor(&c.v, &hk);
+    let f = xor(&c.w, &shake128(&alpha, c.w.len()));
+    let msg = unframe(&f)?;
+    let mut r_in = alpha.clone();
+    r_in.extend_from_slice(&Sha256::digest(&msg));
+    let r = hkdf_scalar(TIMELOCK_SALT, &r_in);
+    if b.pk_gen().mul(&r) == c.u {
+        Some(msg)
+    } else {
+        None
+    }
+}
+
+/// PoK of a signature (M-Pin style): y = H(u ‖ t_le) for the timestamp variant
+pub fn pok_challenge_ts(u: &Pt, t: u64) -> Scalar {
+    let mut bytes = u.to_bytes();
+    bytes.extend_from_slice(&t.to_le_bytes());
+    hkdf_scalar(POK_SALT, &bytes)
+}
+/// (u, v) = (x·H(m), −(x+y)·sig)
+pub fn pok_make(b: &Bls, msg: &[u8], dst: &[u8], sig: &Pt, x: &Scalar, y: &Scalar) -> (Pt, Pt) {
+    let u = b.hash_msg(msg, dst).mul(x);
+    let v = sig.mul(&(x + y)).neg();
+    (u, v)
+}
+/// e(v, P) · e(u + y·H(m), pk) == 1
+pub fn pok_verify(b: &Bls, u: &Pt, v: &Pt, pk: &Pt, y: &Scalar, msg: &[u8], dst: &[u8]) -> bool {
+    if u.is_identity() || v.is_identity() || pk.is_identity() || bool::from(y.is_zero()) {
+        return false;
+    }
+    let a = b.hash_msg(msg, dst);
+    pairing_product_is_one(&[(*v, b.pk_gen()), (u.add(&a.mul(y)), *pk)])
+}
+
+/// ElGamal in the public-key group with message generator H = hash_to_curve(P) under ENC_DST
+pub fn elgamal_generator(b: &Bls, enc_dst: &[u8]) -> Pt {
+    let g = b.pk_gen();
+    Pt::hash(g.is_g1(), &g.to_bytes(), enc_dst)
+}
+pub struct ElGamalProofRef {
+    pub c1: Pt,
+    pub c2: Pt,
+    pub message_proof: Scalar,
+    pub blinder_proof: Scalar,
+    pub challenge: Scalar,
+}
+fn elgamal_challenge(b: &Bls, pk: &Pt, h: &Pt, c1: &Pt, c2: &Pt, r1: &Pt, r2: &Pt) -> Scalar {
+    let mut t = merlin::Transcript::new(b"ElGamalProof");
+    t.append_message(b"dst", ELGAMAL_SALT);
+    t.append_message(b"base point", &b.pk_gen().to_bytes());
+    t.append_message(b"pk", &pk.to_bytes());
+    t.append_message(b"generator", &h.to_bytes());
+    t.append_message(b"c1", &c1.to_bytes());
+    t.append_message(b"c2", &c2.to_bytes());
+    t.append_message(b"r1", &r1.to_bytes());
+    t.append_message(b"r2", &r2.to_bytes());
+    let mut ch = [0u8; 64];
+    t.challenge_bytes(b"challenge", &mut ch);
+    Scalar::from_bytes_wide(&ch)
+}
+pub fn elgamal_prove(b: &Bls, pk: &Pt, h: &Pt, m: &Scalar, blind: &Scalar, r: &Scalar) -> ElGamalProofRef {
+    let p = b.pk_gen();
+    let c1 = p.mul(blind);
+    let c2 = pk.mul(blind).add(&h.mul(m));
+    let r1 = p.mul(r);
+    let r2 = pk.mul(r).add(&h.mul(blind));
+    let c = elgamal_challenge(b, pk, h, &c1, &c2, &r1, &r2);
+    ElGamalProofRef { c1, c2, message_proof: blind + c * m, blinder_proof: r + c * blind, challenge: c }
+}
+pub fn elgamal_verify(b: &Bls, pk: &Pt, h: &Pt, pr: &ElGamalProofRef) -> bool {
+    if pk.is_identity() || pr.c1.is_identity() || pr.c2.is_identity() {
+        return false;
+    }
+    if bool::from(pr.message_proof.is_zero() | pr.blinder_proof.is_zero() | pr.challenge.is_zero()) {
+        return false;
+    }
+    let nc = -pr.challenge;
+    let r1 = pr.c1.mul(&nc).add(&b.pk_gen().mul(&pr.blinder_proof));
+    let r2 = pr.c2.mul(&nc).add(&h.mul(&pr.message_proof)).add(&pk.mul(&pr.blinder_proof));
+    elgamal_challenge(b, pk, h, &pr.c1, &pr.c2, &r1, &r2) == pr.challenge
+}
+
+/// Lagrange interpolation at zero over one-byte identifiers (scalars)
+pub fn lagrange_at_zero(ids: &[u8]) -> Option<Vec<Scalar>> {
+    let mut out = vec![];
+    for (i, xi) in ids.iter().enumerate() {
+        let mut num = Scalar::ONE;
+        let mut den = Scalar::ONE;
+        for (j, xj) in ids.iter().enumerate() {
+            if i == j {
+                continue;
+            }
+            let xi_s = Scalar::from(*xi as u64);
+            let xj_s = Scalar::from(*xj as u64);
+            num *= xj_s;
+            den *= xj_s - xi_s;
+        }
+        let inv: Option<Scalar> = den.invert().into();
+        out.push(num * inv?);
+    }
+    Some(out)
+}
+
+#[cfg(test)]
+mod tests {
+    use super::*;
+    fn hx(s: &str) -> Vec<u8> {
+        (0..s.len()).step_by(2).map(|i| u8::from_str_radix(&s[i..i + 2], 16).unwrap()).collect()
+    }
+    #[test]
+    fn rfc5869_tc1() {
+        let ikm = [0x0bu8; 22];
+        let salt: Vec<u8> = (0u8..=0x0c).collect();
+        let info: Vec<u8> = (0xf0u8..=0xf9).collect();
+        let prk = hkdf_extract(&salt, &[&ikm]);
+        let okm = hkdf_expand(&prk, &info, 42);
+        assert_eq!(
+            okm,
+            hx("3cb25f25faacd57a90434f64d0362f2a2d2d0a90cf1a5a4c5db02d56ecc4c5bf34007208d5b887185865")
+        );
+    }
+    #[test]
+    fn leb() {
+        for v in [0u128, 1, 127, 128, 16383, 16384, 65536, u64::MAX as u128] {
+            let e = leb128(v);
+            assert_eq!(leb128_read(&e), Some((v, e.len())));
+        }
+    }
+}
